@@ -51,6 +51,17 @@ def cases(tier, seed):
                 steps.append({"do": "validate", "path": "A", "legit": legit})
                 steps.append({"do": "info", "path": "A"})
             first = False
+        if planted is None and i % 7 == 3:
+            # directed: a FOREIGN ROOT (its name is not a root of the file) saved whole under an emdpath into an existing tree:
+            # its children are grafted below the target, the Root itself is never written as a group inside another tree
+            fp = gen.tree_paths(F)
+            steps.append({"do": "save", "path": "A", "src": "F", "target": [], "mode": "w", "tree": True, "emdpath": None})
+            steps.append({"do": "validate", "path": "A", "legit": legit})
+            steps.append({"do": "save", "path": "A", "src": "X", "target": [], "mode": r.choice(["a", "ao"]), "tree": True,
+                          "emdpath": ("/" if r.random() < 0.2 else "") + "/".join(["R0"] + list(r.choice(fp)))})
+            steps.append({"do": "validate", "path": "A", "legit": legit})
+            steps.append({"do": "info", "path": "A"})
+            first = False
         for _ in range(r.choice([1, 2, 3, 4, 5]) if planted is None else r.choice([0, 1])):
             mode = r.choice(["w", "o"]) if first else r.choice(["a", "ao", "a", "ao", "o", "append", "appendover"])
             k = r.random()
